@@ -68,6 +68,10 @@ def jsonable(o):
     return repr(o)
 
 
+def _is_flaky(e):
+    return "Flaky" in type(e).__name__ or any("Flaky" in c.__name__ for c in type(e).__mro__)
+
+
 class Discrepancy(Exception):
     def __init__(self, bucket, what, case):
         super().__init__(f"{bucket}: {what}")
@@ -189,8 +193,11 @@ class Ctx:
                 return
             except Discrepancy:
                 pass
-            except hypothesis.errors.HypothesisException:
-                raise
+            except hypothesis.errors.HypothesisException as e:
+                # state leaking between cases (exactly what some properties look for) makes a failure "flaky" for
+                # Hypothesis; the discrepancy it saw is real and was recorded, so report that
+                if not (_is_flaky(e) and state["last"] is not None):
+                    raise
             except BaseException as e:  # Hypothesis re-raises the original error of the minimal example
                 if not isinstance(e, Exception):
                     raise
@@ -378,8 +385,9 @@ def hyp_machine(ctx: Ctx, make_machine, *, max_examples: int, step_count: int, n
             return
         except Discrepancy:
             pass
-        except hypothesis.errors.HypothesisException:
-            raise
+        except hypothesis.errors.HypothesisException as e:
+            if not (_is_flaky(e) and state["last"] is not None):
+                raise
         except Exception:
             if state["last"] is None:
                 raise
